@@ -1,11 +1,25 @@
 (* C05 — compiled programs release every heap block exactly once.
-   Only statements + `exact` of lemmas proved elsewhere, each followed by Print Assumptions. *)
+   Only statements + `exact` of lemmas proved elsewhere, each followed by Print Assumptions.
+
+   Layers:  Rt/Heap.v      ledger of ddp_reallocate calls, `balanced` (spec), `balancedb` (extracted checker)
+            Lower/Own.v    skeleton -> ownership actions (the code generator's discipline) -> ledger
+            Lower/OwnCheck.v  static ownership discipline on the actions (extracted)
+            Lower/RtFns.v  runtime / generated list functions as actions
+   FULL      C05_balancedb_correct, C05_balanced_released_once, C05_actions_balanced_on_every_exit,
+             C05_runtime_fns_balanced
+   PARTIAL   C05_program_balanced_partial (all skeleton programs whose compiled actions pass the static
+             discipline — decidable, evaluated on every generated program by the check)
+   REFUTED   C05_program_balanced_refuted (the discipline of the pinned compiler is not balanced on all
+             programs: self-assignment, loop conditions / bounds / headers with temporaries),
+             C05_scalar_scalar_concat_refuted, C05_nul_text_concat_refuted *)
 From Coq Require Import List NArith Bool.
 Import ListNotations.
-From DDP Require Import Rt.Heap Rt.HeapProofs.
-Open Scope N_scope.
+From DDP Require Import Rt.Heap Rt.HeapProofs Lower.Own Lower.OwnCheck Lower.OwnProofs Lower.RtFns.
+Local Open Scope nat_scope.
 
-(* the extracted checker that judges the real ledgers decides the property *)
+(* ---- the judge of the real ledgers ---------------------------------------------------------- *)
+(* the extracted checker decides the property: every release/resize names a live block with its
+   true size, nothing is live at the end *)
 Theorem C05_balancedb_correct : forall L : ledger, balancedb L = true <-> balanced L.
 Proof. exact balancedb_correct. Qed.
 Print Assumptions C05_balancedb_correct.
@@ -23,6 +37,87 @@ Qed.
 
 (* "exactly once": in a balanced ledger every block is obtained exactly as often as it is released *)
 Theorem C05_balanced_released_once :
-  forall L : ledger, balanced L -> forall p, p <> 0 -> count (creates p) L = count (consumes p) L.
+  forall L : ledger, balanced L -> forall p, p <> 0%N -> count (creates p) L = count (consumes p) L.
 Proof. exact balanced_released_once. Qed.
 Print Assumptions C05_balanced_released_once.
+
+(* ---- statement level: all exits --------------------------------------------------------------- *)
+(* Any sequence of ownership actions accepted by the static discipline keeps "exactly the owning slots
+   hold disjoint live resources and the ledger is replayable" on EVERY exit: fallthrough reaches the
+   computed state; a break / continue arrives, after the frees emitted for it, at the loop's exit /
+   head state; a return arrives at the state the inlined call expects.  For every oracle and fuel. *)
+Theorem C05_actions_balanced_on_every_exit :
+  forall (i : instr) (K : ctx) (G : ost) (R : option ost) (fuel : nat) (st : rstate) (o : outcome) (st' : rstate),
+    own_check K i G = Some R -> Inv G st -> run fuel i st = (o, st') ->
+    match o with
+    | ONormal => exists G', R = Some G' /\ Inv G' st'
+    | OBreak => exists code Gt Gk Gk', k_brk K = Some (code, Gt) /\ Inv Gk st' /\ check_simple code Gk = Some Gk' /\ sub Gk' Gt = true
+    | OContinue => exists code Gt Gk Gk', k_cont K = Some (code, Gt) /\ Inv Gk st' /\ check_simple code Gk = Some Gk' /\ sub Gk' Gt = true
+    | ORet => exists Rr Gr, k_ret K = Some Rr /\ Inv Gr st' /\ sub Gr Rr = true
+    | OFuel => True
+    end.
+Proof. exact own_check_sound. Qed.
+Print Assumptions C05_actions_balanced_on_every_exit.
+
+Example C05_actions_nonvacuous :
+  (* a loop with a concatenation, an inlined call, break and continue from inner scopes is accepted *)
+  program_ok (mkProg [mkFun [(10, MVal, true)] true (SReturn (Some (EVar 10)))]
+                     (SSeq (SDecl 0 (EConcat (ELit 6%N) (ELit 2%N)))
+                           (SWhile EPrim (SBlock (SSeq (SDecl 1 (EConcat (EVar 0) (ECall 0 (AVal (ELit 3%N) ANil))))
+                                                       (SIf EPrim (SBlock SBreak) (SBlock SContinue))))))) = true.
+Proof. vm_compute. reflexivity. Qed.
+
+(* ---- program level ---------------------------------------------------------------------------- *)
+(* PARTIAL: every skeleton program whose compiled actions pass the static discipline yields a
+   balanced ledger whenever it terminates normally — for every oracle (control-flow path) and fuel *)
+Theorem C05_program_balanced_partial :
+  forall (P : program) (fuel : nat) (oracle : list bool) (L : ledger),
+    program_ok P = true -> run_program fuel oracle P = Some L -> balanced L.
+Proof. exact program_ok_balanced. Qed.
+Print Assumptions C05_program_balanced_partial.
+
+(* REFUTED: `forall P, terminates normally -> balanced` is false for the discipline of the pinned tree *)
+Theorem C05_program_balanced_refuted :
+  (exists L, run_program 5 [] wit_self_assign = Some L /\ ~ balanced L) /\
+  (exists L, run_program 5 [true; true; false] wit_while_cond = Some L /\ ~ balanced L) /\
+  (exists L, run_program 5 [] wit_for_bound = Some L /\ ~ balanced L) /\
+  (exists L, run_program 5 [] wit_continue_header = Some L /\ ~ balanced L) /\
+  (exists L, run_program 5 [] wit_continue_foreach = Some L /\ ~ balanced L) /\
+  (exists L, run_program 5 [true] wit_return_in_while = Some L /\ ~ balanced L).
+Proof. exact program_balanced_refuted. Qed.
+Print Assumptions C05_program_balanced_refuted.
+
+(* ---- runtime and generated functions ----------------------------------------------------------- *)
+(* each function transfers ownership as documented, for all argument values *)
+Theorem C05_runtime_fns_balanced :
+  triple (own [1]) fn_free (own []) /\
+  triple (own [1]) fn_deep_copy (own [0; 1]) /\
+  triple (own [1; 2]) fn_string_string_concat (mkO [0; 2] [1]) /\
+  (forall n, triple (own [1]) (fn_string_char_concat n) (mkO [0] [1])) /\
+  (forall n, triple (own [1; 2]) (fn_list_list_concat n) (mkO [0; 2] [1])) /\
+  (forall n, triple (own [1; 2]) (fn_list_scalar_concat n) (mkO [0; 2] [1])) /\
+  (forall n, triple (own [1; 2]) (fn_scalar_list_concat n) (mkO [0; 1] [2])) /\
+  (forall n, triple (own []) (fn_scalar_scalar_concat_prim n) (own [0])) /\
+  (forall n, triple (own [1; 2]) (fn_scalar_scalar_concat_fixed n) (own [0; 1; 2])).
+Proof. exact runtime_fns_balanced. Qed.
+Print Assumptions C05_runtime_fns_balanced.
+
+(* REFUTED: scalar (+) scalar concatenation of non-primitive elements as generated (both copies into
+   slot 0): rejected by the discipline, and a caller that frees result and operands is left with an
+   unbalanced ledger although it terminates normally; with the second copy in slot 1 it is balanced *)
+Theorem C05_scalar_scalar_concat_refuted :
+  own_check ctx0 (fn_scalar_scalar_concat 128%N) (own [1; 2]) = None /\
+  fst (run 0 (caller_of (fn_scalar_scalar_concat 128%N) 5%N 5%N) (init_rstate [])) = ONormal /\
+  ~ balanced (ledger_of (caller_of (fn_scalar_scalar_concat 128%N) 5%N 5%N)) /\
+  balanced (ledger_of (caller_of (fn_scalar_scalar_concat_fixed 128%N) 5%N 5%N)).
+Proof. exact scalar_scalar_concat_refuted. Qed.
+Print Assumptions C05_scalar_scalar_concat_refuted.
+
+(* REFUTED: Text concatenation whose claimed operand is empty for the runtime but owns a buffer *)
+Theorem C05_nul_text_concat_refuted :
+  own_check ctx0 (caller_of fn_string_string_concat_nul_left 2%N 4%N) (own []) = None /\
+  fst (run 0 (caller_of fn_string_string_concat_nul_left 2%N 4%N) (init_rstate [])) = ONormal /\
+  ~ balanced (ledger_of (caller_of fn_string_string_concat_nul_left 2%N 4%N)) /\
+  balanced (ledger_of (caller_of fn_string_string_concat 2%N 4%N)).
+Proof. exact nul_text_concat_refuted. Qed.
+Print Assumptions C05_nul_text_concat_refuted.
